@@ -653,6 +653,9 @@ struct WorkerProc {
     child: Child,
     stdin: ChildStdin,
     lines: mpsc::Receiver<String>,
+    /// inputs handled so far: a worker is recycled after 1000 (worlds that are never shut down pin
+    /// descriptors and memory; the process boundary makes that harmless)
+    served: usize,
 }
 
 fn spawn_worker() -> WorkerProc {
@@ -673,7 +676,7 @@ fn spawn_worker() -> WorkerProc {
             }
         }
     });
-    WorkerProc { child, stdin, lines: rx }
+    WorkerProc { child, stdin, lines: rx, served: 0 }
 }
 
 thread_local! {
@@ -691,10 +694,17 @@ enum Exec {
 fn exec_once(input: &Input) -> Exec {
     WORKER.with(|w| {
         let mut w = w.borrow_mut();
+        if matches!(w.as_ref(), Some(p) if p.served >= 1000) {
+            if let Some(mut old) = w.take() {
+                let _ = old.child.kill();
+                let _ = old.child.wait();
+            }
+        }
         if w.is_none() {
             *w = Some(spawn_worker());
         }
         let proc_ = w.as_mut().expect("worker");
+        proc_.served += 1;
         let line = format!("{}{}", if IS_SHRINKING.with(|f| f.get()) { "!" } else { "" }, serde_json::to_string(input).expect("ser"));
         if writeln!(proc_.stdin, "{}", line).is_err() || proc_.stdin.flush().is_err() {
             let _ = proc_.child.kill();
